@@ -232,6 +232,9 @@ def r06_9(ctx):
 
 
 def run(ctx):
+    ctx.rule("R06.10", "the special category contains every HTML name that is certainly special (template, head, body, ... ): a stray end tag for an enclosing special element is ignored, not honoured")
+    from .C02 import special_tag_html_rule
+    ctx.guard("R06.10", "special", lambda: special_tag_html_rule(ctx, "R06.10"))
     ctx.rule("R06.9", "the rows of the eleven insertion modes that create html, head, body / frameset and leave them are the standard's (steps and conditions)")
     ctx.guard("R06.9", "skeleton-rows", lambda: r06_9(ctx))
     ctx.rule("R06.8", "the sets that bound 'clear the stack back to a ... context' contain html and template")
